@@ -3,6 +3,7 @@
    back to a fixed name when no component is left; _prepare_download_path reserves the chosen name
    (creates the empty file) before its first suspension point. *)
 From Slsk Require Import Base.Tac.
+From SlskGen Require Import NamingGen.
 From Slsk Require Import C09.Model C09.Proofs.
 Open Scope N_scope.
 
